@@ -721,15 +721,17 @@ fn parse_url<T: Pep508Url>(
 
             len += c.len_utf8();
 
-            // If we see a top-level semicolon or hash followed by whitespace, we're done.
-            match c {
-                ';' if cursor.peek_char().is_some_and(char::is_whitespace) => {
-                    break;
-                }
-                '#' if cursor.peek_char().is_some_and(char::is_whitespace) => {
-                    break;
-                }
-                _ => {}
+            // If we see a top-level semicolon or hash followed by whitespace, the end of the URL
+            // is ambiguous: reject it rather than guess, whatever follows.
+            if matches!(c, ';' | '#') && cursor.peek_char().is_some_and(char::is_whitespace) {
+                return Err(Pep508Error {
+                    message: Pep508ErrorSource::String(format!(
+                        "Missing space before '{c}', the end of the URL is ambiguous"
+                    )),
+                    start: cursor.pos() - c.len_utf8(),
+                    len: c.len_utf8(),
+                    input: cursor.to_string(),
+                });
             }
         }
         (start, len)
